@@ -1,4 +1,5 @@
 import DG.Build
+import Proofs.BuildClosure2
 /-!
 # C01 — a built graph is exactly the dependency closure of its roots
 
@@ -15,9 +16,13 @@ Proved here, for every world, option set and state:
   `load_slots_nodup`);
 * the media-type / attribute / root / dynamic-branch dispatch (`classify_*`), stated outright.
 
-The closure statement itself ("nothing unreachable present, nothing reachable absent") is
-decided on every run by the correspondence plus the implementation-side closure oracle; the
-inductive soundness invariant over `runLoop` is proved in `Theorems/C01Closure.lean` when present.
+"Nothing reachable is absent" is proved for every world, option set, root list and finished
+build (`reachable_present`, through the invariants of `Proofs/BuildClosure*.lean`): everything
+reachable from the roots and configured imports by followed dependency edges and recorded
+redirect hops has an entry (module or error, never pending) or is a redirect source.  The
+converse ("nothing unreachable is present") is false of the code (finding F14: the dependencies
+of a module whose entry is overwritten by an error stay) and is decided per run by the
+implementation-side closure oracle.
 -/
 namespace DG.C01
 open DG DG.Build Tables
@@ -321,5 +326,82 @@ def demoOpts : Opts :=
 example : ((build demoWorld demoOpts [0] [] 50).map fun st =>
     (keys st.slots, st.redirects, st.log.map (·.spec))) = some ([0, 2], [(1, 2)], [0, 1, 2]) := by
   decide
+
+/-! ## closure: nothing reachable is absent -/
+
+/-- what is reachable in the finished graph: roots, targets of configured imports, the followed
+targets of module entries (the kept sides of their recorded dependencies, unless dynamic and
+skipped, and the types dependency), and the targets of recorded redirects -/
+inductive Reach (o : Opts) (out : St) (roots : List Spec) (imports : List (Spec × List Dep)) : Spec → Prop
+  | root {r} : r ∈ roots → Reach o out roots imports r
+  | configured {d s rng} : d ∈ imports.flatMap (·.2) → d.type = .ok s rng → Reach o out roots imports s
+  | dep {f m x} : Reach o out roots imports f → out.slot f = some (.module m) → x ∈ modTargets o m →
+      Reach o out roots imports x
+  | redirect {a b} : Reach o out roots imports a → (a, b) ∈ out.redirects → Reach o out roots imports b
+
+/-- accounted for = has a finished entry (module or error) or is a redirect source -/
+def Present (out : St) (x : Spec) : Prop :=
+  (∃ m, out.slot x = some (.module m)) ∨ (∃ e, out.slot x = some (.err e)) ∨ (out.redirects.lookup x).isSome = true
+
+/-- **the followed targets of every module entry, the target of every redirect, every root and
+every configured import are accounted for in a finished build, and nothing is pending** -/
+theorem closure_complete (w : World) (o : Opts) (roots : List Spec) (imports : List (Spec × List Dep))
+    (fuel : Nat) (out : St) (h : build w o roots imports fuel = some out) :
+    (∀ r ∈ roots, Acc out r) ∧
+    (∀ d ∈ imports.flatMap (·.2), ∀ s rng, d.type = .ok s rng → Acc out s) ∧
+    (∀ f m, out.slot f = some (.module m) → ∀ x ∈ modTargets o m, Acc out x) ∧
+    (∀ a b, (a, b) ∈ out.redirects → Acc out b) ∧
+    (∀ s a, out.slot s ≠ some (.pending a)) := by
+  obtain ⟨hc, hdyn, hroots, himps⟩ := build_closure w o roots imports fuel out h
+  refine ⟨hroots, himps, ?_, ?_, build_no_pending w o roots imports fuel out h⟩
+  · intro f m hf x hx
+    rcases hc.dep f (.module m) hf x hx with ha | ⟨b, hb⟩
+    · exact ha
+    · rw [hdyn] at hb; cases hb
+  · intro a b hab
+    rcases hc.redir (a, b) hab with ha | ha
+    · exact ha
+    · cases ha
+
+/-- **nothing reachable is absent** -/
+theorem reachable_present (w : World) (o : Opts) (roots : List Spec) (imports : List (Spec × List Dep))
+    (fuel : Nat) (out : St) (h : build w o roots imports fuel = some out) (x : Spec)
+    (hx : Reach o out roots imports x) : Present out x := by
+  obtain ⟨h1, h2, h3, h4, h5⟩ := closure_complete w o roots imports fuel out h
+  have hacc : Acc out x := by
+    induction hx with
+    | root hr => exact h1 _ hr
+    | configured hd ht => exact h2 _ hd _ _ ht
+    | dep _ hf hm _ => exact h3 _ _ hf _ hm
+    | redirect _ hab _ => exact h4 _ _ hab
+  rcases hacc with hs | hr
+  · rcases hsl : out.slot x with _ | sl
+    · rw [hsl] at hs; cases hs
+    · cases sl with
+      | module m => exact Or.inl ⟨m, hsl⟩
+      | err e => exact Or.inr (Or.inl ⟨e, hsl⟩)
+      | pending a => exact absurd hsl (h5 x a)
+  · exact Or.inr (Or.inr hr)
+
+/-- the followed targets are read off the recorded dependencies: a kept code or type side of a
+dependency that is not a skipped dynamic one -/
+theorem mem_modTargets_js (o : Opts) (mt : MediaType) (deps : List BDep) (td : Option Res) (d : BDep) (s : Spec) (rng : Nat)
+    (hd : d ∈ deps) (hs : (d.dyn && o.skipDynamicDeps) = false) (hc : d.code = .ok s rng ∨ d.type = .ok s rng) :
+    s ∈ modTargets o (.js mt deps td) := by
+  simp only [modTargets, List.mem_append, List.mem_flatMap]
+  left
+  refine ⟨d, hd, ?_⟩
+  simp only [depTargets, hs, Bool.false_eq_true, if_false, List.mem_append]
+  rcases hc with hc | hc
+  · left; rw [hc]; simp
+  · right; rw [hc]; simp
+
+example : ∃ out, build demoWorld demoOpts [0] [] 50 = some out ∧
+    Reach demoOpts out [0] [] 2 ∧ Present out 2 := by
+  refine ⟨(build demoWorld demoOpts [0] [] 50).get (by decide), by simp, ?_, ?_⟩
+  · refine Reach.redirect (a := 1) (Reach.dep (f := 0) (m := .js .TypeScript
+      [{ text := 0, code := .ok 1 0, type := .none, dyn := false, attr := none, isAsset := false, sourcePhase := none }] none)
+      (Reach.root (by simp)) (by decide) (by decide)) (by decide)
+  · exact Or.inl ⟨.js .JavaScript [] none, by decide⟩
 
 end DG.C01
